@@ -106,15 +106,18 @@ Section Blocks.
   Lemma env_of_abs s : fns s = F -> env_of B s = envG (abs s).
   Proof. intro H. rewrite env_of_mkenv, H. unfold envG, abs. rewrite visible_abs. reflexivity. Qed.
 
-  (* the first argument of a call statement must not look like the rest of a declaration / assignment *)
-  Definition call_head_ok (lvl : nat) (args : list fexpr) : Prop :=
-    match args with
-    | a :: _ => match toks_of_pieces (fmt_expr fx lvl a) with
-                | t :: _ => match ttype t with T_ASSIGN | T_DOT | T_COLON | T_DECLARE => False | _ => True end
-                | [] => True
-                end
-    | [] => True
-    end.
+  (* the first token of an expression that parses is not  = . : :=  (parsePrefix has no case for them):
+     a call statement's first argument cannot be mistaken for the rest of a declaration / assignment *)
+  Lemma rt_head_not_assign E w toks t t0 ts : RT E w toks t -> toks = t0 :: ts ->
+    match ttype t0 with T_ASSIGN | T_DOT | T_COLON | T_DECLARE => False | _ => True end.
+  Proof.
+    intros H ->. 
+    destruct (H {| prev := tEOF; rest := (t0 :: ts) ++ [mk T_NL]; peek := tEOF; wss := [w]; errs := []; used := [] |}
+                [mk T_NL] (S (2 * List.length (t0 :: ts))) eq_refl eq_refl (fun _ => eq_refl)
+                (or_intror (or_introl eq_refl)) ltac:(lia)) as (st' & P & _).
+    rewrite parse_expr_unfold in P. unfold parse_prefix in P. unfold cur_t, cur in P. cbn [rest app look0 hd] in P.
+    destruct (ttype t0); try exact I; discriminate P.
+  Qed.
 
   (* ---------- the side conditions, on the checker's context ---------- *)
   Inductive sok : frs -> ctx -> fstmt -> Prop :=
@@ -126,7 +129,6 @@ Section Blocks.
       sok fr G (FmtAst.SAssign (FVar x) v [])
   | sok_call fr G n args fi : ident_text n = true -> lookup_fn n F = Some fi ->
       arity_wrong (envG G) n (List.length args) = false -> Forall (item_ok (envG G) true) args ->
-      (forall lvl, call_head_ok lvl args) ->
       sok fr G (FmtAst.SCall n args [])
   | sok_retv fr G v : fr_ret fr = true -> top_ok (envG G) v -> sok fr G (FmtAst.SReturn (Some v) [])
   | sok_ret fr G : fr_ret fr = true -> fr_retv fr = false -> sok fr G (FmtAst.SReturn None [])
@@ -305,10 +307,9 @@ Section Blocks.
 
   Lemma P_call fr G n args fi : ident_text n = true -> lookup_fn n F = Some fi ->
     arity_wrong (envG G) n (List.length args) = false -> Forall (item_ok (envG G) true) args ->
-    (forall lvl, call_head_ok lvl args) ->
     P_sok fr G (FmtAst.SCall n args []).
   Proof.
-    intros Hx Hfi Har Hall Hhd lvl f s r Hf HST Hn. destruct f as [|f]; [cbn in Hf; lia|].
+    intros Hx Hfi Har Hall lvl f s r Hf HST Hn. destruct f as [|f]; [cbn in Hf; lia|].
     pose proof HST as (Hat & Hpk & N & U & A & Fr & Fn).
     rewrite <- (ST_env _ _ _ _ HST) in Har, Hall.
     assert (Hfi' : lookup_fn n (fns s) = Some fi) by (rewrite Fn; exact Hfi).
@@ -322,9 +323,9 @@ Section Blocks.
     destruct HST as (_ & Hp & _). unfold peek_ok in Hp. rewrite Hp. clear Hp.
     destruct args as [|a args']; [reflexivity|].
     inversion Hall as [|? ? Ha _]; subst.
-    destruct (item_rt (env_of B s) (env_no_tyerr B BT s) eq_refl fx true lvl a Ha) as [_ Hh].
-    specialize (Hhd lvl). cbn [call_head_ok] in Hhd.
-    cbn [map more_args flat_map app]. destruct (toks_of_pieces (fmt_expr fx lvl a)) as [|t0 ts]; [contradiction|].
+    destruct (item_rt (env_of B s) (env_no_tyerr B BT s) eq_refl fx true lvl a Ha) as [Hrt Hh].
+    cbn [map more_args flat_map app]. destruct (toks_of_pieces (fmt_expr fx lvl a)) as [|t0 ts] eqn:Eh; [contradiction|].
+    pose proof (rt_head_not_assign _ _ _ _ t0 ts Hrt eq_refl) as Hhd.
     cbn [app]. unfold peek_of. cbn [look1 look2 tl hd is_ws ttype mk].
     destruct (ttype t0); try contradiction; reflexivity.
   Qed.
